@@ -42,7 +42,7 @@ S := if ( E ) S | if ( E ) S else _ S | while ( E ) { S break; } | do _ S while 
 S := for ( var _ k _ in _ E ) S | for ( let _ e _ of _ E ) S | for ( const [ d ] of [[ E ]]) S | for ( A _ of _ a ) S | for ( A _ in _ o ) S | for await ( let _ e _ of _ E ) S
 S := L: S | L: for (;;) { S J } | M: { S J } | switch ( E ) { case _ E : S default: S } | switch ( E ) { default: S J case _ 1 : S }
 S := try { S } catch ( e ) { S } | try { S } finally { S } | try { S } catch { S } finally { S } | try { S } catch ({ message }) { S }
-S := throw _ E ; | return _ E ; | return ; | with ( E ) S | function _ h ( v ) { S } | class _ C { m ( ) { S } } | class _ D extends _ K { constructor(){ S } } | debugger ; | yield _ E ; | await _ E ; | { let _ w = E ; function _ w2 ( ) { return _ w } S }
+S := throw _ E ; | return _ E ; | return ; | with ( E ) S | function _ h ( v ) { S } | class _ C { m ( ) { S } } | class _ D extends _ K { constructor(){ S } } | debugger ; | yield _ E ; | await _ E ; | { let _ w = E ; function _ w2 ( ) { return _ w } S } | { let [] = [] ; eval("") ; S } | { const {} = o ; S eval("") ; }
 J := break ; | continue ; | break _ L ; | continue _ L ; | break _ M ; | return ; | throw 1 ;
 E := 0 | 1 | x | lx | w | o | a | f() | (()=> w ) | ( E , E ) | ( E && E ) | A = E | A ++ | typeof _ E | gen() | new.target | super.m() | this | ( eval("0") , E ) | [ E ] | lg()
 A := x | w | c | o.p | [ x ] | { p : x } | lx | e
